@@ -62,6 +62,33 @@ def pair_implicit_output(c, rng):
     return None
 
 
+def pair_implicit_output_number(c, rng):
+    """element-wise call without '->' whose would-be output differs from the other inputs by an axis written as a number:
+    'b n 3, b n' = 'b n c, b n -> b n c' with c=3 (a number is an axis with a name of its own)"""
+    if c.family != "elementwise" or len(c.ins) < 2:
+        return None
+    names = [{l.name for l in leaves(t) if not (l.number and l.size == 1)} for t in c.ins]
+    parents = [i for i, n in enumerate(names) if all(m <= n for j, m in enumerate(names) if j != i)]
+    if len(parents) != 1:
+        return None
+    k = parents[0]
+    cnt = {}
+    for l in leaves(c.ins[k]):
+        cnt[l.name] = cnt.get(l.name, 0) + 1
+    own = [l.name for l in leaves(c.ins[k]) if not l.number and l.size > 1 and cnt[l.name] == 1
+           and all(l.name not in names[j] for j in range(len(c.ins)) if j != k)]
+    if not own:
+        return None
+    nm = rng.choice(own)
+    d = clone(c)
+    for l in leaves(d.ins[k]):
+        if l.name == nm:
+            l.number = True
+    long_ = ", ".join(text(t) for t in c.ins) + " -> " + text(c.ins[k])
+    short = ", ".join(text(t) for t in d.ins)
+    return ("implicit_output_number", short, {"__drop__": [nm]}, long_, {})
+
+
 def pair_automark(c, rng):
     """un-bracketed reduction / dot = brackets around the axes missing from the output"""
     if c.family not in ("reduce", "dot"):
@@ -226,7 +253,7 @@ def pair_unit_coordinate(c, rng):
     return None
 
 
-PAIRS = [pair_implicit_output, pair_automark, pair_number, lambda c, r: pair_ellipsis(c, r, True), lambda c, r: pair_ellipsis(c, r, False),
+PAIRS = [pair_implicit_output, pair_implicit_output_number, pair_automark, pair_number, lambda c, r: pair_ellipsis(c, r, True), lambda c, r: pair_ellipsis(c, r, False),
          pair_keepdims, pair_adjacent_brackets, pair_adjacent_brackets_implicit, pair_spaces, pair_rearrange, pair_unit_coordinate]
 
 
